@@ -276,6 +276,26 @@ func main() {
 					stats["truncate "+v]++
 				}
 			}
+			// phase 7 (C04_valid_reader_truncation_filler): inside a LATER filler line (after 0, 1, 2, 50
+			// characters: the same file, except after one character), and the same in the CRLF text,
+			// where the cut can also fall between CR and LF
+			nl := len(text) / 95
+			if nl > ctl+2 {
+				last := (nl - 1) * 95
+				for _, c := range []int{0, 1, 2, 50, 94} {
+					v := emitV(text[:last+c], fmt.Sprintf("%s: truncate LF in last filler line at %d of %d", id, last+c, len(text)))
+					stats["truncate-filler "+v]++
+				}
+			}
+			if nl > ctl+1 {
+				at := (ctl + 1 + i%(nl-ctl-1)) * 96
+				for _, c := range []int{-1, 0, 1, 2, 94, 95} {
+					if at+c < len(crlf) {
+						v := emitV(crlf[:at+c], fmt.Sprintf("%s: truncate CRLF in a filler line at %d of %d", id, at+c, len(crlf)))
+						stats["truncate-filler-crlf "+v]++
+					}
+				}
+			}
 		}
 	}
 	cases.Close()
